@@ -25,7 +25,7 @@ HARNESS = {
 
 def _c15_jobs(tier):
     q = tier == "quick"
-    shards = {"t1": 6, "t2": 3, "t3": 2, "t4": 4, "t5": 1} if q else {"t1": 24, "t2": 8, "t3": 8, "t4": 23, "t5": 1}
+    shards = {"t1": 6, "t2": 3, "t3": 3, "t4": 3, "t5": 1} if q else {"t1": 24, "t2": 8, "t3": 16, "t4": 23, "t5": 1}
     deadline = 50 if q else 800
     jobs = []
     for mode in ("t1", "t2", "t3", "t4", "t5"):
@@ -51,7 +51,11 @@ CHECK = {
                   "reference-built PES packets (11 stream ids, PTS/DTS flags, stuffing, alignment, payload 0/1/20, bounded/unbounded, 4 timestamp pairs) cut at "
                   "every position into 1..3 (thorough: video 1..4) chunks followed by a second packet: bytes, start/end markers, DTS and PTS-DTS in 27 MHz, clock_ts / sync events. "
                   "T3: the harness acts as the mux on ts_encaps (status events, splice, eos) for 1-2 access units of 10 (thorough 22) sizes around every packet "
-                  "boundary x 4 stream ids x PES alignment on/off x PCR interval off / every ~3rd packet / once x random / discontinuity flags x feeding order: "
+                  "boundary x 4 stream ids x PES alignment on/off x PCR interval off / every ~3rd packet / once x random / discontinuity flags x feeding order, and a timestamp axis of 21 "
+                  "combinations (DTS+PTS three frames apart / PTS == DTS, DTS without PTS, bare PTS, no program date, PTS and DTS different 27 MHz dates in the same "
+                  "90 kHz tick at sub-tick phases 0/50/150/298 with delays 1/100/299, crossing into the next tick, delay exactly 300, 50 s, and six placements around "
+                  "the 2^33 wrap) crossed with every first-unit size x {alone, +171, +1000 octets} x stream id x alignment x PCR interval: the reference PES parser "
+                  "requires PTS_DTS_flags, PES_header_data_length and the octets present to agree and the header to have exactly the size its flags need; "
                   "every packet is 188 octets, conformant for the reference parser, PID as configured, continuity counter +1 per payload packet and unchanged "
                   "on PCR-only packets, PCR exactly when the interval elapsed with the program-clock value of its mux date; fed through ts_decaps -> pes_decaps the "
                   "access units come back octet for octet with PTS/DTS, unit start/end, random and discontinuity markers. "
@@ -71,9 +75,9 @@ CHECK = {
     "rule": "state = one input case (packet sequence / PES packet / access-unit pair with its configuration, cutting and mutation); transition = one buffer "
             "input or one splice on the real pipes; non-trivial = executions in which the pipes produced at least one output buffer / TS packet",
     "bounds": {"quick": "T1 depth 1-2 with all 88 packet variants (all cuttings at depth 1), depth 3-4 over a 10-variant alphabet; T2 12 sizes, PES packets in 1-3 chunks; "
-                        "T3 10 sizes (configured minimum PES header on single access units); T4 cuttings {none, 5} for TS and up to the header end for PES "
+                        "T3 10 sizes (configured minimum PES header on single access units), 21 timestamp combinations x 10 sizes x 3 second units x 4 ids x alignment x PCR x 2 flag sets; T4 cuttings {none, 5} for TS and up to the header end for PES "
                         "(video, private_stream_2, padding ids); T5 all 8192 PIDs",
-               "thorough": "T1 depth 5; T2 25 sizes, bounded video PES packets also in 4 chunks; T3 22 sizes, minimum header everywhere; T4 TS cuttings {none,1,4,5,6,12}, "
+               "thorough": "T1 depth 5; T2 25 sizes, bounded video PES packets also in 4 chunks; T3 22 sizes, minimum header everywhere, timestamp axis x 22 sizes x 5 second units x 4 flag sets x both feeding orders x minimum header; T4 TS cuttings {none,1,4,5,6,12}, "
                            "all stream ids and all two-chunk cuttings for PES; T5 as quick"},
     "assumptions": [
         "harness compiled with clang -O1 + AddressSanitizer from /repo's working tree; library asserts enabled",
